@@ -273,6 +273,13 @@ impl Ctx {
 /// shrink only follows inputs that keep the *same* signature) and recorded.
 /// After a novel violation the remaining case budget is spent with that
 /// signature tolerated too, so one shallow defect does not hide others.
+static SHRINK_ITERS: std::sync::atomic::AtomicU32 = std::sync::atomic::AtomicU32::new(3000);
+
+/// checks whose cases are expensive (they spawn processes) shrink less
+pub fn set_shrink_iters(n: u32) {
+    SHRINK_ITERS.store(n, std::sync::atomic::Ordering::Relaxed);
+}
+
 pub fn drive<F>(mut ctx: &mut Ctx, section: &str, cases: u32, min_len: usize, max_len: usize, f: F)
 where
     F: Fn(&mut Ctx, &[u8]) -> Vec<Violation>,
@@ -292,7 +299,7 @@ where
         let config = Config {
             cases: remaining,
             failure_persistence: None,
-            max_shrink_iters: 3000,
+            max_shrink_iters: SHRINK_ITERS.load(std::sync::atomic::Ordering::Relaxed),
             max_global_rejects: 0,
             verbose: 0,
             ..Config::default()
